@@ -9,6 +9,7 @@ package main
 import (
 	"fmt"
 	"go/constant"
+	"go/token"
 	"go/types"
 	"os"
 	"regexp"
@@ -414,6 +415,31 @@ func ruleWire(c *Ctx) {
 			problem = "no successful return"
 		}
 		c.check(problem == "", "note.Note.AddDegree|found-only", c.pos(fn.Pos()), fname(fn), fmt.Sprintf("%d successful return(s), each depending on root pitch and interval size", n), fname(fn)+": "+problem)
+	}
+	// a written bass is always converted: in front of the store of the chord's base stand only `is there a bass` and the
+	// error tests of the steps before - nothing that looks at what the bass (or the root) is
+	if fn := c.fn("astconv", "SyllableChordConverter.convertChordDegree"); fn != nil {
+		for _, f := range c.regionFuncChainsList(fn) {
+			allInstrs(f, func(in ssa.Instruction) {
+				st, ok := in.(*ssa.Store)
+				if !ok {
+					return
+				}
+				if n, _, ok := fieldName(st.Addr); !ok || n != "Base" || typeName(st.Addr.(*ssa.FieldAddr).X.Type()) != "input.Chord" {
+					return
+				}
+				c.site(1)
+				problem := ""
+				for _, pc := range pathConds(st.Block()) {
+					cmp, isCmp := pc.cond.(*ssa.BinOp)
+					if isCmp && (cmp.Op == token.EQL || cmp.Op == token.NEQ) && (isNilConst(cmp.Y) || isNilConst(cmp.X)) {
+						continue // presence of the bass, success of an earlier step
+					}
+					problem = "the bass is converted only under a further condition (`" + pc.cond.String() + "`): some written basses are dropped without a word"
+				}
+				c.check(problem == "", fname(fn)+"|bass-always", c.pos(st.Pos()), fname(f), "a written bass is always converted", fname(f)+": "+problem)
+			})
+		}
 	}
 	// handlers: describe commands pass target / root / accidental preference through
 	for f, a := range funcAlias {
